@@ -95,6 +95,8 @@ OUTER:
 		var stackDirtyMidPrev *segmentStack
 		var stackDirtyBase *segmentStack
 
+		verifGate("merger:ingest", m)
+
 		stackDirtyMid, _, _, _, _ :=
 			m.snapshot(snapshotSkipClean|snapshotSkipDirtyBase,
 				func(ss *segmentStack) {
@@ -131,6 +133,8 @@ OUTER:
 
 		startTime := time.Now()
 
+		verifGate("merger:swap", m)
+
 		mergerWasOk := m.mergerMain(stackDirtyMid, stackDirtyBase, mergeAll)
 		if !mergerWasOk {
 			continue OUTER
@@ -141,6 +145,8 @@ OUTER:
 
 		// ---------------------------------------------
 		// Notify persister.
+
+		verifGate("merger:handover", m)
 
 		m.mergerNotifyPersister()
 
